@@ -200,7 +200,7 @@ fn run_three(p: [(usize, usize); 3]) {
     std::mem::forget(r);
 }
 
-// @tier quick
+// @tier thorough
 // @obligation three path parameters (Cow, String, Cow fields), the solver choosing among constant call sites that vary the rotation of their order and which of them are percent-encoded: every field holds the text the client encoded under its own name (a value decoded into an owned string stays paired with its key whatever its position and whichever other values needed decoding)
 // @bounds 3 parameters, 4 constant call sites: only the middle / only the last encoded, in declaration order and rotated
 // @functions PathParams::extract, RawPathParams::iter, EncodedParamValue::decode, PathDeserializer::new
